@@ -223,57 +223,99 @@ def float_pool(rng, r, n):
     return pool
 
 
-def op_points(rng, op, R, T, n):
-    """Operand pairs (a of type R, b of type R or T): boundary-directed from the model's guards
-    (range of the common type, zero divisor, lo / -1, narrowing thresholds) plus random."""
+def bounds(r):
+    """Every boundary of an integral rep that a guard, a promotion or a conversion can key on."""
+    l, h = lo(r), hi(r)
+    s = {l, l + 1, -2, -1, 0, 1, 2, 3, h - 1, h, h // 2, h // 2 + 1, l // 2}
+    for w in (8, 16, 32, 64):
+        s |= {2 ** (w - 1) - 1, 2 ** (w - 1), 2 ** w - 1, 2 ** w, -2 ** (w - 1), -2 ** (w - 1) - 1}
+    return sorted(v for v in s if l <= v <= h)
+
+
+def bounds_small(r):
+    l, h = lo(r), hi(r)
+    s = {l, l + 1, -1, 0, 1, 2, h, h // 2 + 1, 2 ** 31 - 1, 2 ** 31, -2 ** 31}
+    return sorted(v for v in s if l <= v <= h)
+
+
+def bounds6(r):
+    l, h = lo(r), hi(r)
+    return sorted({l, -1 if l < 0 else 2, 0, 1, h, h // 2 + 1})
+
+
+FKEY = [0, 1, 2, 3, 4, 5, 6, 10, 14, 16, 17, 18]    # +0 -0 +inf -inf qNaN -qNaN sNaN denorm_min max 1 -1 1+ulp
+FKEY8 = [0, 1, 2, 4, 6, 10, 14, 16]
+
+
+def keys(r, size):
+    if is_int(r):
+        return {"full": bounds, "small": bounds_small, "six": bounds6}[size](r)
+    return [SPECIAL[r][i] for i in (FKEY if size in ("full", "small") else FKEY8)]
+
+
+def directed_points(op, R, T, level):
+    """Directed operand pairs, identical in every run: every boundary of the reps (min, max, 2^7 .. 2^63 and their
+    neighbours, 0, +-1, the zero divisor, lo / -1, results at the edge of the common type) and, for floating reps, signed
+    zeros, infinities, quiet and signalling NaNs with payloads, the smallest denormal, max, +-1.  `level` "main": full grid;
+    "extra" (the additional language standards of the quick tier): a smaller grid of the same special values."""
+    f, mode = FUNCTOR[op]
+    tb = R if mode == 0 else T
+    if is_int(R) and BITS[R] == 8 and is_int(tb) and BITS[tb] == 8:
+        return [(lo(R), lo(R) if op in ("pos", "neg") else lo(tb)), (hi(R), hi(R) if op in ("pos", "neg") else hi(tb))]   # swept exhaustively anyway
+    if op in ("pos", "neg"):
+        return [(a, a) for a in keys(R, "full")]
+    if R == tb:
+        big = keys(R, "full" if level == "main" else "small")
+        small = keys(R, "small" if level == "main" else "six")
+        cmp_op = f in ("FEq", "FNe", "FLt", "FLe", "FGt", "FGe")
+        if cmp_op or level != "main":
+            pts = [(a, b) for a in small for b in small] + [(a, a) for a in big]
+            if is_int(R):
+                pts += [(a, a + 1) for a in big if a + 1 <= hi(R)] + [(a + 1, a) for a in big if a + 1 <= hi(R)]
+        else:
+            pts = [(a, b) for a in big for b in small]
+            if is_int(R):
+                pts += [(a, b) for a in small for b in big]
+        return list(dict.fromkeys(pts))
+    return [(a, b) for a in keys(R, "six") for b in keys(tb, "six")]
+
+
+def random_points(rng, op, R, T, n):
+    """Seed-dependent operand pairs: results at the edge of the common type for random operands, random values."""
     f, mode = FUNCTOR[op]
     tb = R if mode == 0 else T
     pts = []
     if is_int(R) and is_int(tb):
+        if BITS[R] == 8 and BITS[tb] == 8:
+            return []
         ta_, tb_ = (tb, R) if mode == 2 else (R, tb)
         c = py_promote(R) if op in ("pos", "neg") else py_uac(ta_, tb_)
         pa, pb = int_pool(rng, R, 6), int_pool(rng, tb, 6)
-        for a in rng.sample(pa, min(len(pa), 7)):
-            for b in rng.sample(pb, min(len(pb), 4)):
-                pts.append((a, b))
-        pts += [(lo(R), lo(tb)), (hi(R), hi(tb)), (lo(R), hi(tb)), (hi(R), lo(tb)), (0, 0), (lo(R), 1), (hi(R), 1)]
-        if lo(tb) < 0:
-            pts += [(lo(R), -1), (hi(R), -1), (1, -1)]
         k = f.replace("As", "")
-        # results at the edge of the common type (signed overflow guard of addIn/subIn/mulIn)
         for _ in range(n):
             a = rng.choice(pa) if rng.random() < 0.5 else rng.randrange(lo(R), hi(R) + 1)
             for edge in (hi(c), lo(c)):
-                for d in (-1, 0, 1):
-                    if k == "FAdd":
-                        b = edge + d - a
-                    elif k == "FSub":
-                        b = a - edge - d
-                    elif k == "FMul" and a not in (0,):
-                        b = edge // a + d
-                    else:
-                        b = rng.choice(pb)
-                    if lo(tb) <= b <= hi(tb):
-                        pts.append((a, b))
+                d = rng.choice((-1, 0, 1))
+                if k == "FAdd":
+                    b = edge + d - a
+                elif k == "FSub":
+                    b = a - edge - d
+                elif k == "FMul" and a not in (0,):
+                    b = edge // a + d
+                else:
+                    b = rng.choice(pb)
+                if lo(tb) <= b <= hi(tb):
+                    pts.append((a, b))
             pts.append((rng.randrange(lo(R), hi(R) + 1), rng.randrange(lo(tb), hi(tb) + 1)))
-            pts.append((rng.choice(pa), 0))
+            pts.append((rng.choice(pa), rng.choice(pb)))
     else:
         pa = int_pool(rng, R, 4) if is_int(R) else float_pool(rng, R, 8)
         pb = int_pool(rng, tb, 4) if is_int(tb) else float_pool(rng, tb, 8)
-        for _ in range(n + 14):
+        for _ in range(2 * n + 2):
             pts.append((rng.choice(pa), rng.choice(pb)))
-        if not is_int(R) and R == tb:
-            for s in rng.sample(SPECIAL[R], 8):
-                pts.append((s, s))
-                pts.append((s, rng.choice(SPECIAL[R])))
-    seen, out = set(), []
-    for p in pts:
-        if op in ("pos", "neg"):
-            p = (p[0], p[0])
-        if p not in seen:
-            seen.add(p)
-            out.append(p)
-    return out
+    if op in ("pos", "neg"):
+        pts = [(p[0], p[0]) for p in pts]
+    return list(dict.fromkeys(pts))
 
 
 def is_nan_bits(code, s):
@@ -305,12 +347,17 @@ def library_units():
     return out
 
 
+GEN_KINDS = ["prod", "quot", "pow", "scaled", "prefix", "inverse", "root", "prodpow", "equiv", "scaled_one", "common"]
+
+
 def generated_units(rng, units, n):
-    """Compound unit type expressions over library units: (name, C++ type, headers)."""
-    out = []
+    """Compound unit type expressions over library units: (name, C++ type, headers).  Always present: the unitless unit and
+    one unit of every kind (incl. a quantity-equivalent but differently typed unit, a unit scaled by exactly one, a common
+    unit); the rest is random."""
+    out = [("unitless", "au::UnitProductT<>", [units[0][1]])]
     for i in range(n):
         (a, ha), (b, hb) = rng.choice(units), rng.choice(units)
-        kind = rng.choice(["prod", "quot", "pow", "scaled", "prefix", "inverse", "root", "prodpow"])
+        kind = GEN_KINDS[i] if i < len(GEN_KINDS) else rng.choice(GEN_KINDS)
         m = rng.choice([2, 3, 10, 1000, 12, 60])
         if kind == "prod":
             t = f"decltype(au::{a}{{}} * au::{b}{{}})"
@@ -326,6 +373,12 @@ def generated_units(rng, units, n):
             t = f"au::UnitInverseT<au::{a}>"
         elif kind == "root":
             t = f"decltype(au::root<2>(au::{a}{{}}))"
+        elif kind == "equiv":
+            t = f"au::Kilo<au::Milli<au::{a}>>"
+        elif kind == "scaled_one":
+            t = f"decltype(au::{a}{{}} * au::mag<1>())"
+        elif kind == "common":
+            t = f"au::CommonUnitT<au::{a}, au::Kilo<au::{a}>, decltype(au::{a}{{}} * au::mag<{m}>() / au::mag<7>())>"
         else:
             t = f"decltype(au::pow<2>(au::{a}{{}}) / au::{b}{{}} * au::mag<{m}>())"
         out.append((f"gen{i}:{kind}", t, [ha, hb]))
@@ -361,6 +414,25 @@ def compile_objs(wd, files, compiler, std, tag):
             return None, {"src": os.path.basename(src), "output": out[-5000:]}
         objs.append(obj)
     return objs, None
+
+
+def compile_many(wd, jobs):
+    """jobs: [(compiler, std, tag, files)] -> {tag: (objs | None, err | None)}; all translation units of all configurations
+    go through one pool."""
+    flat = [(compiler, std, tag, src) for (compiler, std, tag, files) in jobs for src in files]
+
+    def comp(j):
+        compiler, std, tag, src = j
+        obj = src[:-3] + f".{tag}.o"
+        rc, out = cxx(src, obj, compiler=compiler, std=std, extra=["-c"] + no_uio(compiler))
+        return tag, src, obj, rc, out
+    res = {tag: ([], None) for (_, _, tag, _) in jobs}
+    for tag, src, obj, rc, out in pmap(comp, flat):
+        objs, err = res[tag]
+        if rc != 0 and err is None:
+            err = {"src": os.path.basename(src), "output": out[-5000:]}
+        res[tag] = (objs + [obj], err)
+    return {tag: ((objs if err is None else None), err) for tag, (objs, err) in res.items()}
 
 
 def link(objs, exe, compiler):
@@ -405,7 +477,7 @@ def unit_header_includes(headers):
 def explore_layout(wd, drv, configs, rng, tier, stats, viol, samples):
     units = library_units()
     gen = generated_units(rng, units, 16 if tier == "quick" else 64)
-    allu = [(n, f"au::{n}", [h]) for n, h in units] + gen
+    allu = gen[:1] + [(n, f"au::{n}", [h]) for n, h in units] + gen[1:]
     utype = {n: (t, hs) for n, t, hs in allu}
     nch = 8 if tier == "quick" else 16
     chunks = [allu[i::nch] for i in range(nch)]
@@ -432,14 +504,19 @@ def explore_layout(wd, drv, configs, rng, tier, stats, viol, samples):
     stats["layout_rows"] = 0
     stats["layout_model"] = {f"{c}<{r}>": ans[i] for i, (c, r) in enumerate((c, r) for c in ("Quantity", "QuantityPoint") for r in REPS)
                              if r in ("i8", "f80")}
-    for (compiler, std, tag) in configs:
+    def build(j):
+        compiler, std, tag, src = j
+        exe = src[:-3] + f".{tag}"
+        rc, out = cxx(src, exe, compiler=compiler, std=std, extra=no_uio(compiler))
+        return tag, src, exe, rc, out
+    jobs = [(compiler, std, tag, src) for (compiler, std, tag, role) in configs for src in (files if role == "main" else files[:1])]
+    builds = pmap(build, jobs)
+    stats["layout_units_extra_configs"] = len(chunks[0])
+    for (compiler, std, tag, role) in configs:
         cfg = f"{compiler} -std={std}"
-
-        def build(src):
-            exe = src[:-3] + f".{tag}"
-            rc, out = cxx(src, exe, compiler=compiler, std=std, extra=no_uio(compiler))
-            return src, exe, rc, out
-        for src, exe, rc, out in pmap(build, files):
+        for tg, src, exe, rc, out in builds:
+            if tg != tag:
+                continue
             if rc != 0:
                 viol.append({"what": f"layout harness does not compile under {cfg}", "class": "layout-build", "no_input": True,
                              "broken": "correspondence: layout harness (Quantity / QuantityPoint over all units x reps)",
@@ -448,7 +525,7 @@ def explore_layout(wd, drv, configs, rng, tier, stats, viol, samples):
             rc, o, e = run([exe], env=UBSAN_ENV, timeout=600)
             rows = [l for l in o.split("\n") if l.startswith("L ")]
             ubl = [l for l in o.split("\n") if l.startswith("U ")]
-            if ubl and kv(ubl[0]).get("ub") != "0":
+            if ubl and kv(ubl[0]).get("ub") != "0" and compiler == "exact":
                 viol.append({"what": f"sanitizer report while constructing Quantity / QuantityPoint objects under {cfg}", "class": "layout-ub",
                              "no_input": True, "broken": "layout harness (default / value construction)",
                              "rec": {"kind": "ub", "config": cfg, "impl": ubl[0]}, "detail": e[-2000:]})
@@ -471,15 +548,16 @@ def explore_layout(wd, drv, configs, rng, tier, stats, viol, samples):
                 for cls, s, a, fl in (("Quantity", d["sq"], d["aq"], int(d["fq"])), ("QuantityPoint", d["sp"], d["ap"], int(d["fp"]))):
                     m = model[(cls, r)]
                     impl = {"size": s, "align": a, "tc": str((fl >> 2) & 1), "td": str((fl >> 3) & 1), "sl": str((fl >> 4) & 1),
-                            "dflt": "zero" if (fl & 32 and fl & 64) else "nonzero"}
+                            "dflt": "zero" if (fl & 480 == 480) else "nonzero"}
                     base = {"kind": "layout", "cls": cls, "unit": un, "unit_type": utype[un][0], "unit_headers": utype[un][1],
                             "R": r, "config": cfg, "impl": impl, "model": m}
                     # statement-level oracle: exactly R's size and alignment, the three type properties, R{} after construction
-                    ok = (int(s) == sr and int(a) == ar and fl & 127 == 127)
+                    ok = (int(s) == sr and int(a) == ar and fl & 511 == 511)
                     if not ok:
                         viol.append({"what": f"{cls}<{un}, {r}> is not a transparent wrapper: sizeof={s} alignof={a} (rep: {sr}/{ar}) "
                                              f"trivially_copyable={impl['tc']} trivially_destructible={impl['td']} "
-                                             f"standard_layout={impl['sl']} default-init==R{{}}:{(fl >> 5) & 1} value-init==R{{}}:{(fl >> 6) & 1}",
+                                             f"standard_layout={impl['sl']} default-init==R{{}}:{(fl >> 5) & 1} X{{}}==R{{}}:{(fl >> 6) & 1} "
+                                             f"X()==R{{}}:{(fl >> 7) & 1} constexpr X{{}}==R{{}}:{(fl >> 8) & 1}",
                                      "class": f"layout-{cls}", "rec": base})
                     if any(impl[k2] != m.get(k2) for k2 in ("size", "align", "tc", "td", "sl")) or \
                             (impl["dflt"] == "zero") != (m.get("dflt") == "zero"):
@@ -498,10 +576,13 @@ def all_combos():
     for r in REPS:
         for op in SAME_OPS:
             out.append({"op": op, "R": r, "T": r, "ul": 0})
+            out.append({"op": op, "R": r, "T": r, "ul": 1})        # the unitless unit (implicitly convertible to Rep)
         for t in REPS:
             for op in SCALAR_OPS:
                 out.append({"op": op, "R": r, "T": t, "ul": 0})
-            if is_int(r) and is_int(t) or (r, t) in (("f64", "i32"), ("i32", "f64"), ("f32", "f32")):
+                if t == r and op != "divl":
+                    out.append({"op": op, "R": r, "T": t, "ul": 1})
+            if is_int(r) and is_int(t) or (r, t) in (("f64", "i32"), ("i32", "f64"), ("f32", "f32"), ("f64", "f64"), ("f80", "f80")):
                 out.append({"op": "divl", "R": r, "T": t, "ul": 1})
     return out
 
@@ -546,7 +627,7 @@ def write_ops_harness(wd, combos, mt, fam, unit, header):
         files.append(p)
         names.append(f"table_{r}")
         sizes.append(str(len(rows)))
-    main = common + H.OPS_MAIN
+    main = common + H.OPS_MAIN.replace("@CPU_LIMIT@", str(CPU_LIMIT))
     main = main.replace("@EXTERNS@", "\n".join(f"extern const Entry {n}[];" for n in names))
     main = main.replace("@TABLES@", ", ".join(names)).replace("@SIZES@", ", ".join(sizes))
     p = os.path.join(wd, f"ops_{fam}_main.cc")
@@ -554,6 +635,8 @@ def write_ops_harness(wd, combos, mt, fam, unit, header):
     files.append(p)
     return files
 
+
+CPU_LIMIT = 1500      # seconds of CPU time (not wall time) per harness process before the watchdog ends the current request
 
 NEG_DIAG = {
     "narrowing": ["cannot be narrowed", "narrowing conversion"],
@@ -597,11 +680,18 @@ def explore_ops(wd, drv, configs, rng, tier, seed, stats, viol, samples, distinc
     stats["ops_unit"] = unit
     combos = all_combos()
     mt = model_types(drv, combos)
-    npts = 3 if tier == "quick" else 10
-    pts = {key(c): op_points(rng, c["op"], c["R"], c["T"], npts) for c in combos}
+    nrand = 1 if tier == "quick" else 8
+    dmain = {key(c): directed_points(c["op"], c["R"], c["T"], "main") for c in combos}
+    dextra = {key(c): directed_points(c["op"], c["R"], c["T"], "extra") for c in combos}
+    rnd = {key(c): random_points(rng, c["op"], c["R"], c["T"], nrand) for c in combos}
+    pts = {k: list(dict.fromkeys(dmain[k] + dextra[k] + rnd[k])) for k in dmain}     # everything the model is asked about
+    pts_for = {"main": {k: list(dict.fromkeys(dmain[k] + rnd[k])) for k in dmain}, "extra": dextra}
+    stats["op_directed_points_per_config"] = {"main": sum(len(v) for v in dmain.values()), "extra": sum(len(v) for v in dextra.values())}
+    stats["op_random_points_per_main_config"] = sum(len(v) for v in rnd.values())
     stats.update({"op_combos": len(combos), "op_points": 0, "op_sweeps": 0, "op_sweep_values": 0, "op_types_checked": 0,
                   "op_gated": 0, "op_raw_illformed": 0, "op_undefined_skipped": 0, "op_value_unmodelled_f80": 0,
-                  "op_python_int_oracle": 0, "neg_probes": 0, "f4_cases": 0, "ops_by_kind": {}})
+                  "op_python_int_oracle": 0, "neg_probes": 0, "f4_cases": 0, "ops_by_kind": {}, "op_constexpr_checks": 0,
+                  "ub_reports_nonexact_builds": 0, "traps": 0})
     # the model's answers for the points (values) and the 8-bit sweeps are compiler independent
     preq, pidx = [], []
     for c in combos:
@@ -614,15 +704,19 @@ def explore_ops(wd, drv, configs, rng, tier, seed, stats, viol, samples, distinc
     bad = [(q, a) for q, a in zip(preq, pans) if a == "bad-op"]
     if bad:
         raise RuntimeError(f"driver rejected generated request: {bad[0]}")
-    sw = [c for c in combos if is_int(c["R"]) and BITS[c["R"]] == 8 and is_int(c["T"]) and BITS[c["T"]] == 8]
-    sans = drv.ask([f"c13 sweep8 {c['op']} {c['R']} {c['T']}" for c in sw])
-    msweep = {key(c): kv(a) for c, a in zip(sw, sans)}
+    sw = list(dict.fromkeys((c["op"], c["R"], c["T"]) for c in combos
+                            if is_int(c["R"]) and BITS[c["R"]] == 8 and is_int(c["T"]) and BITS[c["T"]] == 8))
+    sans = drv.ask([f"c13 sweep8 {o} {r} {t}" for (o, r, t) in sw])
+    msweep3 = {k: kv(a) for k, a in zip(sw, sans)}
+    sweep_raw = dict(zip(sw, sans))
 
-    for (compiler, std, tag) in configs:
+    famfiles = {fam: write_ops_harness(wd, combos, mt, fam, unit, header) for fam in sorted({family(c[0]) for c in configs})}
+    built = compile_many(wd, [(compiler, std, tag, famfiles[family(compiler)]) for (compiler, std, tag, _role) in configs])
+    for (compiler, std, tag, role) in configs:
         fam = family(compiler)
         cfg = f"{compiler} -std={std}"
-        files = write_ops_harness(wd, combos, mt, fam, unit, header)
-        objs, err = compile_objs(wd, files, compiler, std, tag)
+        exact = compiler == "exact"
+        objs, err = built[tag]
         exe = os.path.join(wd, f"ops_{tag}")
         if objs is not None:
             err = link(objs, exe, compiler)
@@ -636,13 +730,16 @@ def explore_ops(wd, drv, configs, rng, tier, seed, stats, viol, samples, distinc
         for c in combos:
             lines.append(f"T {c['op']} {c['R']} {c['T']} {c['ul']}")
             meta.append(("T", c, None, None))
+        for r0 in REPS:
+            lines.append(f"C {r0}")
+            meta.append(("C", {"op": "constexpr", "R": r0, "T": r0, "ul": 0}, None, None))
         for c in combos:
             if mt[key(c)][fam] != "1":
                 continue
-            if key(c) in msweep:
+            if (c["op"], c["R"], c["T"]) in msweep3:
                 lines.append(f"S {c['op']} {c['R']} {c['T']} {c['ul']}")
                 meta.append(("S", c, None, None))
-            for (a, b) in pts[key(c)]:
+            for (a, b) in pts_for[role][key(c)]:
                 bt = c["R"] if FUNCTOR[c["op"]][1] == 0 else c["T"]
                 lines.append(f"P {c['op']} {c['R']} {c['T']} {c['ul']} {fmt_val(c['R'], a)} {fmt_val(bt, b)}")
                 meta.append(("P", c, a, b))
@@ -657,6 +754,21 @@ def explore_ops(wd, drv, configs, rng, tier, seed, stats, viol, samples, distinc
             if ans.startswith("bad"):
                 viol.append({"what": "operator harness rejected a request", "class": "ops-protocol", "no_input": True,
                              "broken": "harness protocol", "rec": dict(base, kind="protocol", line=l, answer=ans)})
+                continue
+            if ans.startswith("TRAP"):
+                stats["traps"] += 1
+                ta, tb2 = (a, b) if kind == "P" else (r.get("a"), r.get("b"))
+                why = "CPU-time watchdog" if r.get("sig") == "24" else f"signal {r.get('sig')}"
+                viol.append({"what": f"`{CPP_EXPR.get(c['op'], c['op'])}` on Quantity<{unit}, {c['R']}> (scalar {c['T']}) trapped ({why}) at "
+                                     f"a={ta} b={tb2} where the built-in operator is defined", "class": f"trap-{c['op']}-{c['R']}",
+                             "rec": dict(base, kind="trap", a=ta, b=tb2, sig=r.get("sig"), line=l)})
+                continue
+            if kind == "C":
+                stats["op_constexpr_checks"] += int(r.get("n", 0))
+                if r.get("bad") != "0":
+                    viol.append({"what": f"inside constant expressions an operator of Quantity<{unit}, {c['R']}> (operands 7 and 3) differs from "
+                                         f"the built-in operator in value or type ({r.get('bad')} of {r.get('n')} expressions)",
+                                 "class": f"constexpr-{c['R']}", "rec": dict(base, kind="constexpr", a=7, b=3, impl=ans)})
                 continue
             if kind == "T":
                 stats["op_types_checked"] += 1
@@ -705,12 +817,12 @@ def explore_ops(wd, drv, configs, rng, tier, seed, stats, viol, samples, distinc
                 continue
             tys = types.get(key(c), {})
             if kind == "S":
-                ms = msweep[key(c)]
+                ms = msweep3[(c["op"], c["R"], c["T"])]
                 stats["op_sweeps"] += 1
                 stats["op_sweep_values"] += int(r["n"])
                 stats["ops_by_kind"][c["op"]] = stats["ops_by_kind"].get(c["op"], 0) + int(r["n"])
                 if len(samples) < 5:
-                    samples.append({"request": l, "harness": ans, "model": sans[sw.index(c)], "config": cfg})
+                    samples.append({"request": l, "harness": ans, "model": sweep_raw[(c["op"], c["R"], c["T"])], "config": cfg})
                 if (r["n"], r["defined"], r["qhash"], r["rhash"]) != (ms["n"], ms["defined"], ms["hash"], ms["rawhash"]):
                     viol.append({"what": f"exhaustive 8-bit sweep of `{CPP_EXPR[c['op']]}`: model and implementation differ",
                                  "class": "corr-sweep", "no_input": True, "broken": "correspondence: c13 sweep8 (Au.C13.qOp / rawOp)",
@@ -723,7 +835,9 @@ def explore_ops(wd, drv, configs, rng, tier, seed, stats, viol, samples, distinc
                                  "class": f"value-{c['op']}-{c['R']}",
                                  "rec": dict(base, kind="value", a=a0, b=b0, count=int(r["mism"]),
                                              narrowing_explains=narrowing_explains(c, a0, b0, None, None))})
-                if int(r["ub"]):
+                if int(r["ub"]) and not exact:
+                    stats["ub_reports_nonexact_builds"] += int(r["ub"])
+                if int(r["ub"]) and exact:
                     viol.append({"what": f"sanitizer report while sweeping `{CPP_EXPR[c['op']]}` on inputs where the built-in operator is defined",
                                  "class": f"ub-{c['op']}-{c['R']}", "rec": dict(base, kind="ub", impl=ans)})
                 continue
@@ -772,8 +886,10 @@ def explore_ops(wd, drv, configs, rng, tier, seed, stats, viol, samples, distinc
                                      f"{r['r']} (a={fmt_val(c['R'], a)}, b={fmt_val(c['R'] if FUNCTOR[c['op']][1] == 0 else c['T'], b)})", "class": f"value-{c['op']}-{c['R']}",
                              "rec": dict(pbase, kind="value", q=r["q"], r=r["r"],
                                          narrowing_explains=narrowing_explains(c, a, b, r["q"], r["r"]))})
-            if r["ub"] != "0":
-                viol.append({"what": f"sanitizer report in `{CPP_EXPR[c['op']]}` where the built-in operator is defined",
+            if r["ub"] != "0" and not exact:
+                stats["ub_reports_nonexact_builds"] += int(r["ub"])
+            if r["ub"] != "0" and exact:
+                viol.append({"what": f"undefined behaviour (exact-count UBSan) in `{CPP_EXPR[c['op']]}` where the built-in operator is defined",
                              "class": f"ub-{c['op']}-{c['R']}", "rec": dict(pbase, kind="ub", impl=ans)})
         # negative probes: what the model says this compiler rejects must be rejected, for the modelled reason
         rej = [c for c in combos if mt[key(c)][fam] != "1"]
@@ -783,7 +899,7 @@ def explore_ops(wd, drv, configs, rng, tier, seed, stats, viol, samples, distinc
         chosen = []
         for reason, cs in sorted(by_reason.items()):
             rng.shuffle(cs)
-            chosen += cs if (reason == "narrowing" or tier == "thorough") else cs[:4]
+            chosen += cs if (reason == "narrowing" or tier == "thorough") else cs[:(4 if role == "main" else 1)]
         if tier == "thorough":
             chosen = chosen[:160]
 
@@ -839,7 +955,7 @@ def explore_rt(wd, drv, configs, rng, tier, stats, viol, samples, distinct):
     units = library_units()
     unit, header = rng.choice(units)
     stats["rt_unit"] = unit
-    src = H.RT.replace("@UNIT_INCLUDES@", unit_header_includes([header])).replace("@UNIT@", "au::" + unit)
+    src = H.RT.replace("@UNIT_INCLUDES@", unit_header_includes([header])).replace("@UNIT@", "au::" + unit).replace("@CPU_LIMIT@", str(CPU_LIMIT))
     p = os.path.join(wd, "rt.cc")
     open(p, "w").write(src)
     singles = []
@@ -856,10 +972,15 @@ def explore_rt(wd, drv, configs, rng, tier, stats, viol, samples, distinct):
                     "floating reps unit_pt(x).in(unit_pt) turns -0.0 into +0.0 and quiets signalling NaNs")
     counts = {"f32": 1_000_000, "f64": 1_000_000, "f80": 500_000} if tier == "quick" else {"f32": 4_000_000, "f64": 16_000_000, "f80": 8_000_000}
     icount = 100_000 if tier == "quick" else 1_000_000
-    for ci, (compiler, std, tag) in enumerate(configs):
-        cfg = f"{compiler} -std={std}"
+    def build(j):
+        compiler, std, tag, _role = j
         exe = os.path.join(wd, f"rt_{tag}")
         rc, out = cxx(p, exe, compiler=compiler, std=std, extra=no_uio(compiler))
+        return tag, (exe, rc, out)
+    builds = dict(pmap(build, configs))
+    for ci, (compiler, std, tag, role) in enumerate(configs):
+        cfg = f"{compiler} -std={std}"
+        exe, rc, out = builds[tag]
         if rc != 0:
             viol.append({"what": f"round-trip harness does not compile under {cfg}", "class": "rt-build", "no_input": True,
                          "broken": "round-trip harness (unit(x).in(unit), data_in, unit_pt(x).in(unit_pt))",
@@ -873,8 +994,11 @@ def explore_rt(wd, drv, configs, rng, tier, stats, viol, samples, distinct):
             lines.append(f"A {r}")
             meta.append(("A", r, None))
         for r in REPS:
-            n = counts.get(r, icount)
-            per = 8 if not is_int(r) else 1
+            lines.append(f"K {r}")
+            meta.append(("K", r, None))
+        for r in REPS:
+            n = counts.get(r, icount) if role == "main" else 20_000
+            per = 8 if (not is_int(r) and role == "main") else 1
             for k in range(per):
                 lines.append(f"N {r} {n // per} {rng.getrandbits(63)}")
                 meta.append(("N", r, None))
@@ -891,6 +1015,18 @@ def explore_rt(wd, drv, configs, rng, tier, stats, viol, samples, distinct):
                 viol.append({"what": "round-trip harness rejected a request", "class": "rt-protocol", "no_input": True,
                              "broken": "harness protocol", "rec": {"kind": "protocol", "line": l, "answer": ans}})
                 continue
+            if ans.startswith("TRAP"):
+                viol.append({"what": f"round-trip harness trapped (signal {d.get('sig')}) on request `{l}`", "class": f"rt-trap-{r}",
+                             "rec": {"kind": "trap", "R": r, "x": fmt_val(r, v) if v is not None else None, "line": l, "config": cfg}})
+                continue
+            if kind == "K":
+                stats["rt_constexpr_checks"] = stats.get("rt_constexpr_checks", 0) + int(d.get("n", 0))
+                if d.get("bad") != "0":
+                    viol.append({"what": f"inside a constant expression unit(x).in(unit) does not return x bit-for-bit for {r} "
+                                         f"({d.get('bad')} of {d.get('n')} special values: +-0, +-inf, NaN payloads, denorm_min, max / lowest)",
+                                 "class": f"q-roundtrip-constexpr-{r}", "rec": {"kind": "q-roundtrip", "R": r, "x": "constexpr specials",
+                                                                               "config": cfg, "impl": ans}})
+                continue
             if kind == "R":
                 stats["rt_singles"] += 1
                 distinct.add(("rt", r, v))
@@ -898,8 +1034,12 @@ def explore_rt(wd, drv, configs, rng, tier, stats, viol, samples, distinct):
                 m = kv(mans[singles.index((r, v))])
                 if len(samples) < 16 and not is_int(r) and v in (SPECIAL[r][1], SPECIAL[r][6]) and ci == 0:
                     samples.append({"request": l, "harness": ans, "model": mans[singles.index((r, v))], "config": cfg})
-                if not (d["q"] == x and d["q2"] == x and d["q3"] == x):
-                    viol.append({"what": f"unit(x).in(unit) does not return x bit-for-bit for {r} x={x}: {d['q']} / {d['q2']} / {d['q3']}",
+                forms = {"q": "unit(x).in(unit)", "q2": "make_quantity<U>(x).in(U{})", "q3": "data_in(U{})", "q4": "unit(x).in<R>(unit)",
+                         "q5": "make_quantity<U>(x).in<R>(U{})", "q6": "coerce_in(U{})", "q7": "in(SymbolFor<U>{})",
+                         "q8": "in(Kilo<Milli<U>>{})", "q9": "const copy .in(unit)"}
+                badf = [f"{forms[k2]} = {d.get(k2)}" for k2 in forms if d.get(k2) != x]
+                if badf:
+                    viol.append({"what": f"the Quantity round trip does not return x bit-for-bit for {r} x={x}: " + "; ".join(badf[:4]),
                                  "class": f"q-roundtrip-{r}", "rec": {"kind": "q-roundtrip", "R": r, "x": x, "config": cfg, "impl": ans}})
                 if m["q"] != d["q"]:
                     viol.append({"what": "model and implementation differ on the Quantity round trip", "class": "corr-rt", "no_input": True,
@@ -923,21 +1063,29 @@ def explore_rt(wd, drv, configs, rng, tier, stats, viol, samples, distinct):
                                     f"unit_pt(x).in(unit_pt) for {r}: first differing x={d['pfirst']} ({cfg})", int(d[k2]))
                 if int(d["pmodel"]):
                     observe(obs, "point_roundtrip_model_drift", f"{r} x={d['pmfirst']}: not (x + 0) * 1 on raw values ({cfg})", int(d["pmodel"]))
-            if d.get("ub", "0") != "0":
-                viol.append({"what": "sanitizer report during a round trip", "class": "rt-ub", "rec": {"kind": "ub", "R": r, "impl": ans, "config": cfg}})
+            if d.get("ub", "0") != "0" and compiler == "exact":
+                viol.append({"what": "undefined behaviour (exact-count UBSan) during a round trip", "class": "rt-ub", "rec": {"kind": "ub", "R": r, "impl": ans, "config": cfg}})
 
 
 # ------------------------------------------------------------------------------------------------
 
 def pick_configs(tier, seed):
-    """quick: g++ c++14 (ASan + UBSan) and "exact" (clang++-14 code generation and front end, exact-count UBSan) at a
-    seed-chosen standard; thorough: all six compiler x standard configurations plus "exact"."""
+    """(compiler, std, tag, role).  The statement quantifies over g++ and clang++ at C++14/17/20, so every quick run builds all
+    six compiler x standard combinations: two "main" configurations — g++ c++14 (ASan + UBSan) and "exact" (clang++-14 front
+    end and code generation, exact-count UBSan) at a seed-chosen standard — get the full directed grids, the random points, all
+    units and the long round-trip sweeps; the other four ("extra") get every type/acceptance check, every exhaustive 8-bit
+    sweep, the constant-expression checks, a smaller directed grid of the same special values, the special-value round
+    trips and a reduced unit list.  thorough: all six plus "exact", all "main"."""
     if tier == "thorough":
-        return [("g++", "c++14", "g14"), ("g++", "c++17", "g17"), ("g++", "c++20", "g20"),
-                ("clang++-14", "c++14", "c14"), ("clang++-14", "c++17", "c17"), ("clang++-14", "c++20", "c20"),
-                ("exact", "c++14", "x14")]
-    std2 = ["c++14", "c++17", "c++20"][seed % 3]
-    return [("g++", "c++14", "g14"), ("exact", std2, "x" + std2[-2:])]
+        return [("g++", "c++14", "g14", "main"), ("g++", "c++17", "g17", "main"), ("g++", "c++20", "g20", "main"),
+                ("clang++-14", "c++14", "c14", "main"), ("clang++-14", "c++17", "c17", "main"), ("clang++-14", "c++20", "c20", "main"),
+                ("exact", "c++14", "x14", "main")]
+    stds = ["c++14", "c++17", "c++20"]
+    std2 = stds[seed % 3]
+    out = [("g++", "c++14", "g14", "main"), ("exact", std2, "x" + std2[-2:], "main")]
+    out += [("g++", sd, "g" + sd[-2:], "extra") for sd in stds if sd != "c++14"]
+    out += [("exact", sd, "x" + sd[-2:], "extra") for sd in stds if sd != std2]
+    return out
 
 
 def main(tier, seed):
@@ -962,8 +1110,8 @@ def main(tier, seed):
                      "broken": "tools/c13_extract.py", "rec": {"kind": "extract"}})
     proof = prove(PROP)
     configs = pick_configs(tier, seed)
-    stats["configs"] = [f"{c} -std={s}" + (" (clang++-14, exact-count UBSan handlers, no ASan)" if c == "exact" else "")
-                        for c, s, _ in configs]
+    stats["configs"] = [f"{c} -std={s} [{role}]" + (" (clang++-14, exact-count UBSan handlers, no ASan)" if c == "exact" else "")
+                        for c, s, _, role in configs]
     stats["ub_counting"] = ("exact per input / per sweep in the `exact` configuration; informational (once per source location, "
                             "never under g++) in the ASan+UBSan configurations")
     if proof.get("build_ok"):
@@ -1066,7 +1214,7 @@ def replay(path):
                                                  and not (is_nan_bits(t.get("qty", ""), p["q"]) and is_nan_bits(t.get("rty", ""), p["r"]))):
                 bad = True
     elif kind in ("q-roundtrip", "pt-roundtrip", "corr-rt", "corr-ptrt"):
-        src = H.RT.replace("@UNIT_INCLUDES@", unit_header_includes([header])).replace("@UNIT@", "au::" + unit)
+        src = H.RT.replace("@UNIT_INCLUDES@", unit_header_includes([header])).replace("@UNIT@", "au::" + unit).replace("@CPU_LIMIT@", str(CPU_LIMIT))
         p = os.path.join(wd, "rt.cc")
         open(p, "w").write(src)
         exe = os.path.join(wd, "rt")
@@ -1094,7 +1242,7 @@ def replay(path):
             if l.startswith("L ") and l.split()[2] == r["R"]:
                 print("impl  :", l)
                 d = kv(l)
-                bad = not (d["sq"] == d["sr"] == d["sp"] and d["aq"] == d["ar"] == d["ap"] and int(d["fq"]) & 127 == 127 and int(d["fp"]) & 127 == 127)
+                bad = not (d["sq"] == d["sr"] == d["sp"] and d["aq"] == d["ar"] == d["ap"] and int(d["fq"]) & 511 == 511 and int(d["fp"]) & 511 == 511)
         print("model :", drv.ask([f"c13 layout {r['cls']} {r['R']}"])[0])
     else:
         print("replay: the record names a broken obligation or correspondence relation:", rec.get("broken"))
